@@ -5,8 +5,10 @@ clang++ (opposite evaluation orders of function arguments)."""
 import os
 
 import cl_domain
+import q_domain
 import vlib
 from props import _cl_common as cc
+from props import _q_common as qc
 
 FILES = ['Properties_C04.v']
 
@@ -63,7 +65,7 @@ def build(ctx, variants):
 
 
 def run(ctx):
-    proof = vlib.coq_prove(ctx, FILES, leaves=['callbacklist', 'dispatch'])
+    proof = vlib.coq_prove(ctx, FILES, leaves=['callbacklist', 'dispatch', 'queue'])
     variants = dict(VARIANTS_QUICK)
     if ctx.tier == 'thorough':
         variants.update(VARIANTS_MORE)
@@ -93,6 +95,14 @@ def run(ctx):
         if not ctx.samples and usable:
             for i in usable[ncorpus:ncorpus + 2]:
                 ctx.samples.append({'case': texts[i].strip().split('\n'), 'model_trace': model[i][:40]})
+    # enqueue(): the event key is read from a by-value, movable payload by a getEvent policy — the queue must file the
+    # event under the caller's key whatever order the compiler evaluates the pieces in (g++ and clang++)
+    qbins = qc.build_variants(ctx, ['keyfrompayload_gxx', 'keyfrompayload_clang'])
+    qcases = [q_domain.Gen(ctx.rng.fork(), 'fifo').gen() for _ in range(ctx.budget(250, 10000))]
+    qst, _, _, _ = q_domain.correspond(ctx, qbins, qcases, keep=lambda l: not l.startswith('live'),
+                                       oracle='mech' if proof['ok'] else 'spec', what='EventQueue (key read from the by-value payload)')
+    tot['compared'] += qst['compared']
+    tot['disagreements'] += qst['disagreements']
     if not proof['ok'] and not ctx.violations:
         ctx.violation('# no failing input found by %d comparisons\n# broken obligation(s):\n# %s\n' % (tot['compared'], '\n# '.join(proof['errors'])),
                       'proof obligation no longer checks: ' + '; '.join(proof['errors'])[:400], no_input=True)
